@@ -27,10 +27,16 @@ type c16Op struct {
 
 var errInjectedRW = errors.New("injected response writer failure")
 
+// errInjectedNotSupported: a flush failure that wraps http.ErrNotSupported (what a wrapping
+// ResponseController reports when the inner writer cannot flush). It is a flush failure like any other.
+var errInjectedNotSupported = fmt.Errorf("injected: %w", http.ErrNotSupported)
+
 type c16Result struct {
 	Rets []error
 	Core *mon.CoreRW
 }
+
+var c16Err error = errInjectedRW
 
 func c16RunSession(shape string, script []c16Op, failAt, accept int, preCT string) (res c16Result, upgradeErr error) {
 	core := mon.NewCoreRW()
@@ -38,7 +44,7 @@ func c16RunSession(shape string, script []c16Op, failAt, accept int, preCT strin
 		// something earlier (middleware, handler code before Upgrade) already put a Content-Type there
 		core.Hdr["Content-Type"] = []string{preCT}
 	}
-	core.FailAt, core.Accept, core.Err = failAt, accept, errInjectedRW
+	core.FailAt, core.Accept, core.Err = failAt, accept, c16Err
 	w, _ := mon.MakeRW(shape, core)
 	req := httptest.NewRequest(http.MethodGet, "http://verif.invalid/", http.NoBody)
 	sess, err := sse.Upgrade(w, req)
@@ -125,7 +131,7 @@ func c16Judge(shape string, script []c16Op, res c16Result, failAt int) (out []jv
 	if res.Core.Failed {
 		if failedCall < 0 {
 			out = append(out, jvf([]string{"failure_swallowed"}, "the writer failed at operation %d but every Send/Flush returned nil", failAt))
-		} else if !errors.Is(res.Rets[failedCall], errInjectedRW) {
+		} else if !errors.Is(res.Rets[failedCall], c16Err) {
 			out = append(out, jvf([]string{"failure_error_wrong"}, "the writer failed but the call returned %v", res.Rets[failedCall]))
 		}
 		// nothing may be written after the failure
@@ -229,6 +235,10 @@ func TestC16(t *testing.T) {
 		shape := flushShapes[rng.IntN(len(flushShapes))]
 		r.Begin(key, fmt.Sprintf("shape=%s script=%+v", shape, script))
 		preCT := []string{"", "", "text/plain; charset=utf-8", "application/json"}[rng.IntN(4)]
+		c16Err = errInjectedRW
+		if rng.IntN(3) == 0 {
+			c16Err = errInjectedNotSupported
+		}
 		base, uerr := c16RunSession(shape, script, -1, -1, preCT)
 		r.Eval(fw.Hash(shape, fmt.Sprintf("%+v", script)), len(script) > 1)
 		if uerr != nil {
@@ -326,6 +336,9 @@ func TestC16(t *testing.T) {
 		r.Begin(key, fmt.Sprintf("shape=%s header=%q on=%d refuse=%v sendsFirst=%v firstFlushFails=%v", shape, hv, onMode, subRefuses, sendsFirst, firstFlushFails))
 		core := mon.NewCoreRW()
 		core.Err = errInjectedRW
+		if rng.IntN(2) == 0 {
+			core.Err = errInjectedNotSupported
+		}
 		w, canFlush := mon.MakeRW(shape, core)
 		req := httptest.NewRequest(http.MethodGet, "http://verif.invalid/", http.NoBody)
 		if hv != nil {
@@ -421,9 +434,9 @@ func TestC16(t *testing.T) {
 				fs = append(fs, jvf([]string{"writes_without_events"}, "nothing was sent and Subscribe returned nil but ServeHTTP touched the writer: %+v", core.Log))
 			}
 			if firstFlushFails {
-				if len(prov.sendErrs) != 1 || !errors.Is(prov.sendErrs[0], errInjectedRW) {
+				if len(prov.sendErrs) != 1 || !errors.Is(prov.sendErrs[0], core.Err) {
 					fs = append(fs, jvf([]string{"failure_swallowed"}, "the header flush failed but Send returned %v", prov.sendErrs))
-				} else if core.Code != http.StatusInternalServerError || !strings.Contains(body, errInjectedRW.Error()) {
+				} else if core.Code != http.StatusInternalServerError || !strings.Contains(body, core.Err.Error()) {
 					fs = append(fs, jvf([]string{"no_500_on_subscribe_error"}, "the provider's first Send failed at the header flush (nothing was sent) and Subscribe returned that error, but the response is code %d body %q", core.Code, body))
 				}
 			} else if sendsFirst {
